@@ -9,6 +9,7 @@ CFG = {
             "all 256 thorough), parameterless CSI, 27;m;k~, raw CSI fuzz incl. 2^31+ parameters; mat: chord sample x related binding "
             "runes x all 256 masks (+ a 9-bit mask); mstr/str: own String(), case/ordering variants, random binding strings, every "
             "Key* constant x masks; xp: every chord the xterm legacy encoder expresses x kitty forms x bindings. "
+            "self: every event type but release (repeat / paste / motion / unknown) x special keys x masks; hypl: the law UpperHasLower on all lower-case runes of Unicode; "
             "hypa/hyp: hypotheses of self_match / cross_protocol_char_* evaluated on Go's unicode tables; xpu: character keys of other scripts "
             "(fixed awkward list, all 27 title-case targets, 25/830 lower-without-upper, 60/3000 random) under legacy vs kitty on the real code; "
             "dec:csi-minint64: modifier / event parameters that wrap to math.MinInt64. "
@@ -25,9 +26,16 @@ CFG = {
                   "self_match (every pressed chord, table parts by kernel decide), cross_protocol (ASCII table) and cross_protocol_char_* "
                   "(character keys of any script, every Uni meeting explicit hypotheses, checked at run time on Go's tables), decode_csi_total "
                   "(every CSI parameter list over Z). Body tie: matches_body_eq_model (the interpreted body of Key.Matches extracted this run = "
-                  "the hand model, all inputs); MatchString/String/decodeKey: extracted bodies fully recognised, pinned syntactically "
-                  "(facts_*_body) and run against the hand model and the implementation on every case (0 differences required) - no "
-                  "all-inputs body theorem yet for these three. F209 (rule 6 on runes that are their own upper case) and F210 (Shift-text work-around ignored the reported "
+                  "the hand model, all inputs); round 4: string_body_eq_model, matchString_body_eq_model (calling the interpreted Matches) and decodeKey_body_eq_model "
+                  "(per arm: print / esc / csi without hypothesis, c0 / ss3 for int32 payloads - ansi.C0 / ansi.SS3 are Go runes; all loops by a generic loop-invariant "
+                  "lemma over GoInterp.loop): the interpreted bodies extracted this run = the hand model for ALL inputs, so every theorem about decodeKey / String / MatchString "
+                  "is about the code's own decision structure; the syntactic pins (facts_*_body) stay and every case still runs the bodies next to model and implementation. "
+                  "Round 4 also: Props/C09Sound - binding_soundness (ONE statement: Matches => strong modifiers and every bit but Shift/Caps/Num identical, locks irrelevant, "
+                  "Shift forgiven only by rules 3/5/6, key agrees under one of the six rules; all runes, any Uni), self_match_every_event / _decoded / _pasted (every event type "
+                  "but a release: repeat, paste, motion, any value - Spec.bindableEvent; the self oracle and generator cover them), cross_protocol_char_plain_keycode "
+                  "(the plain-key theorem with the kitty protocol's own domain condition ToLower c = c plus the table law UpperHasLower, checked over ALL of Unicode on Go's tables by the hypl op: "
+                  "the 27 title-case letters are decided OUTSIDE - not kitty key codes - and are still run on the real code, class outside:not-a-kitty-key-code). "
+                  "F513 fixed (dd2d171): SS3 E = Begin (Spec.ss3Table row; ss3_is_spec). F209 (rule 6 on runes that are their own upper case) and F210 (Shift-text work-around ignored the reported "
                   "shifted code) are fixed in the source (2174a90, 4ca4c24): cross_protocol_char_plain now only excludes lower-case runes WITH an "
                   "upper case of their own mapping to the key (27 title-case letters of Go's tables, not keys; Witness/F209 proves the hypothesis "
                   "is needed), cross_protocol_char_shift has no hypothesis on ToUpper any more (Witness/F210: regression theorems). "
